@@ -1,0 +1,101 @@
+//go:build verif
+
+package kafka
+
+import (
+	"github.com/ozontech/file.d/pipeline"
+	"github.com/twmb/franz-go/pkg/kgo"
+	"go.uber.org/zap"
+)
+
+// Exported wrappers for the C10 correspondence harness (/verif/harness/c10). Add-only: nothing
+// here is referenced by production code and no existing file is changed.
+
+// VerifC10AssembleSourceID calls the real packing of (topic index, partition).
+func VerifC10AssembleSourceID(index int, partition int32) pipeline.SourceID {
+	return assembleSourceID(index, partition)
+}
+
+// VerifC10DisassembleSourceID calls the real unpacking of a source id.
+func VerifC10DisassembleSourceID(id pipeline.SourceID) (int, int32) {
+	return disassembleSourceID(id)
+}
+
+// VerifC10AssembleOffset calls the real packing of (offset, leader epoch) of a record.
+func VerifC10AssembleOffset(offset int64, leaderEpoch int32) int64 {
+	return assembleOffset(&kgo.Record{Offset: offset, LeaderEpoch: leaderEpoch})
+}
+
+// VerifC10DisassembleOffset calls the real unpacking of an event offset (the value to mark).
+func VerifC10DisassembleOffset(o int64) (offset int64, epoch int32) {
+	eo := disassembleOffset(o)
+	return eo.Offset, eo.Epoch
+}
+
+// VerifC10Plugin is a Plugin that has everything Commit needs: the topic list and a kgo client
+// with a consumer group and AutoCommitMarks. The client is never connected (the seed broker is a
+// closed local port), so nothing but Commit -> MarkCommitOffsets ever touches the marks and no
+// autocommit can move `committed`; MarkedOffsets() then is exactly the per-partition head.
+type VerifC10Plugin struct {
+	P *Plugin
+}
+
+// VerifC10NewPlugin builds the plugin state that Start would build, minus the network part of
+// NewClient (which pings the brokers and calls Fatal when there are none).
+func VerifC10NewPlugin(topics []string) (*VerifC10Plugin, error) {
+	cl, err := kgo.NewClient(
+		kgo.SeedBrokers("127.0.0.1:1"),
+		kgo.ConsumerGroup("verif-c10"),
+		kgo.ConsumeTopics(topics...),
+		kgo.AutoCommitMarks(),
+	)
+	if err != nil {
+		return nil, err
+	}
+	p := &Plugin{
+		config: &Config{Topics: topics},
+		client: cl,
+		logger: zap.NewNop().Sugar(),
+	}
+	p.idByTopic = make(map[string]int, len(topics))
+	for i, topic := range topics {
+		p.idByTopic[topic] = i
+	}
+	return &VerifC10Plugin{P: p}, nil
+}
+
+// Commit calls the real Plugin.Commit on an event carrying the given source id and offset.
+func (v *VerifC10Plugin) Commit(sourceID pipeline.SourceID, offset int64) {
+	v.P.Commit(&pipeline.Event{SourceID: sourceID, Offset: offset})
+}
+
+// Marked returns kgo's marked heads (what the auto-committer would send).
+func (v *VerifC10Plugin) Marked() map[string]map[int32]kgo.EpochOffset {
+	return v.P.client.MarkedOffsets()
+}
+
+// Close releases the kgo client.
+func (v *VerifC10Plugin) Close() { v.P.client.Close() }
+
+// VerifC10Consume runs the real per-partition consumer loop (consumer.go: pconsumer.consume) over
+// one fetch of records for (topic, partition) with the plugin's topic index, handing events to ctl.
+func (v *VerifC10Plugin) VerifC10Consume(ctl pipeline.InputPluginController, topic string, partition int32, records []*kgo.Record) {
+	pc := &pconsumer{
+		topic:     topic,
+		partition: partition,
+		topicID:   v.P.idByTopic[topic],
+
+		quit:    make(chan struct{}),
+		done:    make(chan struct{}),
+		fetches: make(chan kgo.FetchTopicPartition, 1),
+
+		controller: ctl,
+		logger:     zap.NewNop(),
+	}
+	pc.fetches <- kgo.FetchTopicPartition{
+		Topic:          topic,
+		FetchPartition: kgo.FetchPartition{Partition: partition, Records: records},
+	}
+	close(pc.fetches)
+	pc.consume()
+}
